@@ -14,6 +14,9 @@ pub fn stub_now_ms() -> u64 {
 }
 pub fn set_clock(t: u64) {
     unsafe { CLOCK = t }
+    // the same instant through srtla-core's verif-hooks clock override, so that a NATIVE replay (where the
+    // #[kani::stub] of now_ms is not in effect) reads the clock the model read (any_now() >= 1, so never 0 = off)
+    srtla_core::utils::VH_CLOCK_OVERRIDE_MS.store(t, std::sync::atomic::Ordering::Relaxed);
 }
 
 /// Datagrams handed to the local SRT client through the synchronous fast path.
